@@ -176,7 +176,7 @@ class CellConversion:
 
         if not isLeaf(p_tree):
             operator, *args = p_tree
-            if operator == '^':
+            if operator in ('^', '^^'):
                 # complements stay complements at this stage (they will be
                 # handled later)
                 return p_tree
@@ -405,7 +405,9 @@ class CellConversion:
     def pot_complement(self, tree):
         if not isinstance(tree, (list, tuple)):
             return tree
-        if tree[0] == '^':
+        if tree[0] in ('^', '^^'):
+            # '^' is the complement of a cell, '^^' (produced by the De
+            # Morgan inversion of '^') is the region of the cell itself
             cell = self.dic_cell_mcnp[int(tree[1])]
             if cell.lattice is not None:
                 # This is a complement of a lattice! What does that even mean
@@ -415,6 +417,8 @@ class CellConversion:
                 assert len(surfaces) >= 1  # otherwise things are REALLY weird
                 return ['*', surfaces[0], -surfaces[0]]
             new_geom = self.pot_complement(cell.geometry)
+            if tree[0] == '^^':
+                return new_geom
             return new_geom.inverse()
         new_tree = [tree[0]]
         new_tree.extend(self.pot_complement(node) for node in tree[1:])
